@@ -601,6 +601,9 @@ impl<Backing : AsRef<[u32]> + AsMut<[u32]>> DrawTarget<Backing> {
                 mask: None,
             },
         };
+        // the corners of an empty intersection mean nothing and can be as far apart as
+        // i32 allows, which size() can't express: keep one empty rectangle for all of them
+        let clip = if clip.rect.is_empty() { Clip { rect: IntRect::zero(), mask: clip.mask } } else { clip };
         self.clip_stack.push(clip);
     }
 
